@@ -111,6 +111,14 @@ def cases(tier, seed):
                 out.append({"k": k, "rgs": list(range(k)), "prio": [pr], "pat": "none", "pat_args": [], "n": None,
                             "tied": False, "inherit": "isolate" if idx % 2 else "isolate_cli", "real": False,
                             "op": ["remove", "link", "softlink", "move"][idx % 4], "perm": list(perm)})
+    # three isolate roots and two link sets that chain them: r1/f0 = r1x/f1, r1x/g/f2 = r3/f3. Whatever root is retained,
+    # the other two hold a link of a retained file, directly or through the middle root
+    for roots3 in (["r1", "r1x", "r3"], ["r3", "r1x", "r1"], ["r1x", "r1", "r3"]):
+        for pl in ([], ["top"], ["bottom"], ["newest"], ["least-nested"]):
+            idx += 1
+            out.append({"k": 4, "rgs": [0, 0, 1, 1], "prio": pl, "pat": "none", "pat_args": [], "n": None, "tied": False,
+                        "inherit": "isolate3", "real": idx % 2 == 0, "op": OPS4[idx % 4], "roots3": roots3,
+                        "paths": ["r1/a/f0", "r1x/f1", "r1x/g/f2", "r3/f3"]})
     # a large group: sort routines behave differently beyond a few dozen elements (stability of ties)
     big_paths = ["r1/x%02d/%sf" % (i, "deep/" if i % 3 else "") for i in range(40)]
     for pl in (["most-nested"], ["least-nested"], ["least-nested", "top"], ["bottom", "most-nested"], ["top"], []):
@@ -269,9 +277,14 @@ def reference(report_paths, case, sc, opts):
     if not match_links:
         # hard links of one file are kept or dropped as a whole (statement): a sub-group that contains a link of a
         # retained file is retained as well (only possible when isolate roots cut through a link set)
-        kept_ids = set(info[p]["id"] for sg in retained for p in sg)
-        retained += [sg for sg in dropped if any(info[p]["id"] in kept_ids for p in sg)]
-        dropped = [sg for sg in dropped if not any(info[p]["id"] in kept_ids for p in sg)]
+        # - and so on: a sub-group retained for that reason may hold a link of yet another dropped sub-group
+        while True:
+            kept_ids = set(info[p]["id"] for sg in retained for p in sg)
+            more = [sg for sg in dropped if any(info[p]["id"] in kept_ids for p in sg)]
+            if not more:
+                break
+            retained += more
+            dropped = [sg for sg in dropped if sg not in more]
     return set(p for sg in dropped for p in sg), set(p for sg in retained for p in sg)
 
 
@@ -323,6 +336,10 @@ def evaluate(case):
             if inh == "isolate_dot":
                 roots = ["./r1", "r1x/../r1x"]
             opts["isolate_roots"] = [sc.path("r1").decode(), sc.path("r1x").decode()]
+        elif inh == "isolate3":
+            gargs.append("--isolate")
+            roots = case["roots3"]
+            opts["isolate_roots"] = [sc.path(r).decode() for r in roots]
         elif inh == "isolate_hash_arg":
             # an argument that starts with '#' (a comment character of the command-line syntax the header uses)
             # stands before the settings the dedupe command inherits
